@@ -97,6 +97,17 @@ def _sha(s):
 
 
 def check(prop, tier, seed, repo, vacuity=True, update_baseline=False):
+    import fcntl
+    os.makedirs(BUILD, exist_ok=True)
+    lock = open(os.path.join(BUILD, ".lock"), "w")
+    fcntl.flock(lock, fcntl.LOCK_EX)  # checks share build/ (kani-src, unit files): one at a time
+    try:
+        return _check(prop, tier, seed, repo, vacuity, update_baseline)
+    finally:
+        fcntl.flock(lock, fcntl.LOCK_UN)
+
+
+def _check(prop, tier, seed, repo, vacuity=True, update_baseline=False):
     t0 = time.time()
     if prop not in PROPS:
         print("property %s is not claimed by this framework (see MANIFEST.not_applicable)" % prop)
